@@ -13,7 +13,7 @@ MANIFEST = {
             'array-formula ranges of shape 1x1, 1x2, 2x1 and 2x2 is built with each of 7 sheet namings (plain, with a space, lower case, needing quotes, with an apostrophe, digit-first, with a letter whose upper case is two letters), '
             'loaded fully or from chosen ranges (sentinel cells outside the model), calculated with and without overridden inputs, and written into fresh books, into the loaded '
             'books and to disk (read back with openpyxl). Every (book, sheet, coordinate) covered by the solution must hold the converted solved value at its own position, '
-            'no extra sheet may appear, sentinels must be untouched and compare() with the written files must report no difference; on the disk target a second, different solution is written over the same files and compared again in the same process. Half of the namings are repeated with the second book\'s sheet carrying the same name as the first book\'s.',
+            'no extra sheet may appear, sentinels must be untouched and compare() with the written files must report no difference; on the disk target a second, different solution is written over the same files and compared again in the same process. Half of the namings are repeated with the second book\'s sheet carrying the same name as the first book\'s.' ' Later additions: merged cells inside an overridden block, compare() without a solution argument and with each file alone, a pre-written range-override solution, whole-row nodes two rows high (thorough: whole-column nodes two columns wide) on every target.',
     'note': 'Oracle is the solution itself (the property is about reproduction), so no reference evaluator is trusted here; conversion rules from the statement.',
 }
 RULE = 'case = (sheet name, origin, override, target); every solved cell is one obligation; non-trivial = written and inspected; distinct = case key'
